@@ -232,12 +232,20 @@ def main_check(check, tier, seed, replay=None):
         rng = core.rng_for(prop, seed)
         import covrep
         cov = covrep.start(os.environ.get("EG_REPO", "/repo"))
+        PSEUDO = ("witness:", "exchange:", "sweep:", "randgraph-direct:", "theorems:", "fresh", "dumps")
         if replay:
             payload = json.load(open(replay))
             sc = payload.get("script") or []
-            if sc and not sc[0].startswith("witness:"):
+            if sc and any(l.startswith(PSEUDO) for l in sc):
+                # the failing input was produced by a part of the check that does not go through the line protocol
+                # (a regression witness, a regenerated table row, a fault sweep, a seeded randgraph run, a fresh
+                # interpreter): that part is deterministic, so the replay is the check itself
+                replay = None
+            elif sc:
                 outs = [real.step(l) for l in sc]
                 run_scripts_with_oracle(check, real, [(sc, outs)], stats, violations)
+        if replay:
+            pass
         else:
             import drift
             moved = drift.drifted(prop, os.environ.get("EG_REPO", "/repo"))
